@@ -167,6 +167,7 @@ def run(m: Model, r: Report, tier: str) -> None:
                  "every concrete request class is reachable by dynamic parsing", floor=60)
     r.rule("R9", "address/length-format helpers put memorySize length in the high and memoryAddress length in the low nibble", floor=3)
     r.rule("R10", "UDSClient service methods forward every parameter to the constructor parameter of the same name", floor=30)
+    r.rule("R13", "no PDU shorter than the ISO minimum of its (service, sub-function) is parsed as a typed request", floor=35)
     r.rule("R12", "named fields sit at the ISO 14229-1 positions (sub-byte packing, order of equal-width neighbours, repeated groups)", floor=25)
     r.rule("R11", "from_pdu returns a typed request only after comparing its re-serialisation with the parsed bytes (non-canonical "
                   "encodings fall back to RawRequest, which keeps the bytes)", floor=2)
@@ -342,6 +343,18 @@ def run(m: Model, r: Report, tier: str) -> None:
                 "R7", construct,
                 f"declared length envelope [{mn}, {mx}] rejects well-formed requests (ISO: [{iso_min}, {iso_max}])", loc=req.loc,
                 fact_ok=f"[{mn},{mx}] ⊇ ISO [{iso_min},{iso_max}]")
+        short = sorted({pth.len_lo for pth in acc if isinstance(pth.len_lo, int) and pth.len_lo < iso_min})
+        # with computed field widths (address / size lengths taken from a format byte) a too short PDU parses into fields that re-serialise longer, and the
+        # round-trip guard of from_pdu (R11) refuses it; only parsers with constant slice bounds hand a truncated PDU through unchanged
+        fp_ = m.resolve_method(req, "_from_pdu")
+        const_layout = fp_ is not None and all(
+            all(b_ is None or isinstance(m.try_fold(fp_.module, b_), int) for b_ in ((sl.slice.lower, sl.slice.upper) if isinstance(sl.slice, ast.Slice) else (sl.slice,)))
+            for sl in ast.walk(fp_.node) if isinstance(sl, ast.Subscript) and isinstance(sl.value, ast.Name) and sl.value.id == "pdu")
+        if not const_layout:
+            short = []
+        r.check(not short, "R13", construct, f"PDUs of length {short} are parsed as {req.name} although the shortest well-formed request has {iso_min} bytes: a truncated "
+                "request is handled as a typed request (the virtual ECU answers its content instead of incorrectMessageLengthOrInvalidFormat)", loc=req.loc,
+                fact_ok=f"shortest accepted length >= {iso_min}")
 
     # ---------------------------------------------------------------- R5
     for req in registered:
